@@ -189,7 +189,12 @@ def run(prog, R):
         slices = [(x, t) for x, t in b.calls() if t.callee and t.callee.path in SLICE_INDEX and 'Range' in ' '.join(t.callee.targs + [b.local_tys[t.args[1].place.local] if not t.args[1].is_const else ''])
                   and 'RangeFull' not in ' '.join(t.callee.targs)
                   # a piece cut out of data, not of a literal (`&b" "[..]`)
-                  and not (roots_of(b, t.args[0]) and all(r[0] in ('const', 'promoted') for r in roots_of(b, t.args[0])))]
+                  and not (roots_of(b, t.args[0]) and all(r[0] in ('const', 'promoted') for r in roots_of(b, t.args[0])))
+                  # ... and not out of a line that is trimmed already (`&self.head()[..i]`: the id is a piece of the header line)
+                  and not (roots_of(b, t.args[0], through_calls=identity_through) and all(
+                      r[0] == 'call' and r[1].callee is not None and ((prog.local_callee_body(r[1].callee) is not None and prog.local_callee_body(r[1].callee).path in good)
+                                                                       or (r[1].callee.trait is not None and r[1].callee.name in ('head', 'qual') and 'Record' in (r[1].callee.path or '')))
+                      for r in roots_of(b, t.args[0], through_calls=identity_through)))]
         if not slices:
             continue
         line_sites.append(b)
@@ -569,6 +574,11 @@ def epos_rules(prog, R, trimmer):
                             handed_in = True
                         if not okn and len(r) == 1 and r[0][0] == 'call' and r[0][1].callee.name == 'len':
                             inner_ = roots_of(b, r[0][1].args[0], du, through_calls=identity_through)
+                            # the length of a CR-trimmed line cut by a generic line function (`rec.line(buf, Line::Seq)`): which line it
+                            # is is decided by an argument this rule does not follow
+                            if inner_ and all(q[0] == 'call' and prog.local_callee_body(q[1].callee) is not None and prog.local_callee_body(q[1].callee).path in GOOD_SITES
+                                              and prog.local_callee_body(q[1].callee).key.rsplit('::', 1)[-1] not in ('seq', 'qual', 'head') for q in inner_):
+                                handed_in = True
                             if inner_ and all(q[0] == 'call' and prog.local_callee_body(q[1].callee) is not None and
                                               (prog.local_callee_body(q[1].callee).path in UNDECIDED_SITES or not is_u8_slice_ref(prog.local_callee_body(q[1].callee).local_tys[0])) for q in inner_):
                                 handed_in = True
@@ -630,7 +640,12 @@ def epos_rules(prog, R, trimmer):
             def off_from_param(op_):
                 # an offset looked up from the parameter (`match part { Head => 0, Seq => 1, .. }`): literals selected by parameter 2
                 dd_ = data_deps(f, op_, du)
-                return bool(dd_) and all(d_[0] == 'const' or (d_[0] == 'arg' and d_[1] == 2) or d_[0] == 'discr' for d_ in dd_) and any(d_[0] == 'const' for d_ in dd_)
+                if bool(dd_) and all(d_[0] == 'const' or (d_[0] == 'arg' and d_[1] == 2) or d_[0] == 'discr' for d_ in dd_) and any(d_[0] == 'const' for d_ in dd_):
+                    return True
+                # ... or computed from it by a private function of the part (`part.line_offset()`)
+                return bool(dd_) and any(d_[0] == 'arg' and d_[1] == 2 for d_ in dd_) and all(
+                    (d_[0] == 'arg' and d_[1] == 2) or d_[0] in ('const', 'discr') or (d_[0] == 'call' and prog.local_callee_body(d_[1].callee) is not None and
+                                                                                          'RecordPos' in prog.local_callee_body(d_[1].callee).key) for d_ in dd_)
             ok = (is_line(ra[0]) and (is_off(ra[1]) or off_from_param(o[1]))) or (is_line(ra[1]) and (is_off(ra[0]) or off_from_param(o[0])))
         R.add('UNIT-4', f, 'error-line', ok, site(f, s.line), 'ErrorPosition.line = self.position.line + line_offset: %s' % ok)
         # EPOS-5 (seeds C02-r5a / C06-r5a): wherever this function cuts the header out of the buffer, the conditions of the path
@@ -1093,7 +1108,54 @@ def iter_rules(prog, R):
             srcs = length_sources(prog, b, 0)
             bad = []
             unknown = []
-            for (kind, what) in srcs:
+            # a length kept as the distance of two cursors (`back - front`): every stepping method moves one of them - what has to
+            # hold is that each stepping method writes at least one of the fields the length is computed from
+            fsrc = [w_ for (k_, w_) in srcs if k_ == 'field']
+            two_cursor = False
+            if len(fsrc) >= 2 and all(k_ == 'field' for (k_, _) in srcs):
+                two_cursor = True
+                for tr2, m2 in (('std::iter::Iterator', 'next'), ('std::iter::DoubleEndedIterator', 'next_back'),
+                                ('std::iter::Iterator', 'nth'), ('std::iter::DoubleEndedIterator', 'nth_back')):
+                    for nb in prog.by_key.get('<%s as %s>::%s' % (self_ty, tr2, m2), []):
+                        if not any(s.k == 'assign' and s.place.local == 1 and [p['name'] for p in s.place.proj if p['k'] == 'field'][:1] and
+                                   [p['name'] for p in s.place.proj if p['k'] == 'field'][0] in fsrc for blk in nb.blocks for s in blk.stmts):
+                            two_cursor = False
+                            bad.append('%s() writes none of the fields %s the length is computed from' % (m2, fsrc))
+            if two_cursor and meth == 'size_hint':
+                # ITER-1 for cursor pairs (seeds C20-a, C20-r2a, C20-r6a: `if self.back == 0 { return None }`, `self.back.checked_sub(1)?`
+                # in next_back): a step reports the end only on a test that involves BOTH cursors - the iterator is exhausted when
+                # they meet, wherever they meet
+                for tr2, m2 in (('std::iter::Iterator', 'next'), ('std::iter::DoubleEndedIterator', 'next_back')):
+                    for nb in prog.by_key.get('<%s as %s>::%s' % (self_ty, tr2, m2), []):
+                        ndu = DefUse(nb)
+                        none_exits = []
+                        for blk in nb.blocks:
+                            if blk.idx not in nb.cfg.rset:
+                                continue
+                            if any(st.k == 'assign' and st.place.local == 0 and not st.place.proj and st.rv.k == 'agg' and st.rv.j.get('variant') == 'None' for st in blk.stmts):
+                                none_exits.append(blk.idx)
+                            t_ = blk.term
+                            if t_.k == 'call' and t_.callee and t_.callee.path == 'std::ops::FromResidual::from_residual' and t_.dest.local == 0:
+                                none_exits.append(blk.idx)
+                        verdicts = []
+                        for x in none_exits:
+                            fields_, unknown_ = set(), False
+                            for a_ in controlling_switches(nb, x):
+                                for d_ in data_deps(nb, nb.blocks[a_].term.discr, ndu):
+                                    if d_[0] == 'arg' and d_[1] == 1:
+                                        if d_[-1]:
+                                            fields_.add(d_[-1][0][1])
+                                        else:
+                                            unknown_ = True
+                                    elif d_[0] == 'call' and prog.local_callee_body(d_[1].callee) is not None:
+                                        unknown_ = True
+                            verdicts.append((set(fsrc) <= fields_, unknown_, sorted(fields_)))
+                        if verdicts:
+                            okc = all(v[0] for v in verdicts)
+                            und = (not okc) and any(v[1] for v in verdicts if not v[0])
+                            R.add('ITER-1', nb, 'end-test-compares-both-cursors', okc, site(nb, nb.span['lo']),
+                                  '%s() reports the end under tests over the fields %s (required: both of %s)' % (m2, [v[2] for v in verdicts], fsrc), undecided=und)
+            for (kind, what) in ([] if two_cursor else srcs):
                 if kind == 'inner':
                     if what not in inner_fields:
                         bad.append('length of field `%s`, which is not the wrapped iterator' % what)
@@ -1287,7 +1349,7 @@ def head_guard_ok(prog, f, inline=False, strict=False):
     from scev import Sym, Aff, Path, slice_range, linear_preds, preds_hold
     hb = [b for b in prog.bodies.values() if b.key.endswith('fastq::BufferPosition::head')]
     if len(hb) != 1:
-        return False
+        return None       # no accessor of that name (the lines are cut by one function selected by a parameter): not judged
     bp = ('f', ('self',), None, 'buf_pos')
     rng = slice_range(prog, hb[0], bp)
     if rng is None or not all(isinstance(x, Aff) for x in rng):
@@ -1523,8 +1585,10 @@ def ser_validation_rules(prog, R):
     for fmt in ('fasta', 'fastq'):
         ty = '%s::RecordSet' % fmt
         entry = [b for b in prog.bodies.values() if b.promoted_of is None and re.match(r'<%s as std::convert::TryFrom(<.*>)?>::try_from$' % re.escape(ty), b.key)]
+        # ... and a hand-written Serialize of the set (the derived one is `<mod>::_::<impl Serialize for T>::serialize`)
+        entry += [b for b in prog.bodies.values() if b.promoted_of is None and re.match(r'<%s as .*Serialize>::serialize$' % re.escape(ty), b.key)]
         if not entry:
-            continue          # no validating conversion: nothing to judge (SER-1 covers the derived impls)
+            continue          # no validating conversion / hand-written serialiser: nothing to judge (SER-1 covers the derived impls)
         scope = set()
         work = [b.path for b in entry]
         while work:
@@ -1568,8 +1632,15 @@ def ser_validation_rules(prog, R):
                         kind = None
                         if not o.is_const:
                             rs = roots_of(b, o, du)
-                            if rs and all(r[0] == 'arg' and 'BufferPosition' in b.local_tys[r[1]] and tuple(q[1] for q in r[-1]) in lenfields for r in rs):
-                                kind = ('field', tuple(q[1] for q in rs[0][-1]))
+                            def fpath(r):
+                                # field path into a BufferPosition: of a parameter of that type, or of the item of an iteration over the offsets
+                                if r[0] == 'arg' and 'BufferPosition' in b.local_tys[r[1]]:
+                                    return tuple(q[1] for q in r[-1])
+                                if r[0] == 'call' and r[1].callee is not None and r[1].callee.name in ('next', 'next_back') and r[1].dest.is_local() and 'BufferPosition' in b.local_tys[r[1].dest.local]:
+                                    return tuple(q[1] for q in r[-1] if q[2] is None)
+                                return None
+                            if rs and all(fpath(r) in lenfields for r in rs):
+                                kind = ('field', fpath(rs[0]))
                             elif rs and all((r[0] == 'arg' and b.local_tys[r[1]].strip() == 'usize' and not r[-1]) or (r[0] == 'call' and r[1].callee and r[1].callee.name == 'len') for r in rs):
                                 kind = ('len',)
                         sides.append(kind)
@@ -1592,7 +1663,7 @@ def ser_validation_rules(prog, R):
                 du = DefUse(b)
                 bounded = any(t.callee and (t.callee.path in ('std::iter::Iterator::take',) or (t.callee.path in SLICE_INDEX and 'Range' in ' '.join(t.callee.targs))) for _, t in b.calls())
                 for x, t in b.calls():
-                    if not (t.callee and t.callee.name in ('iter', 'into_iter') and t.args):
+                    if not (t.callee and t.callee.name in ('iter', 'into_iter', 'last', 'first') and t.args):
                         continue
                     rs = roots_of(b, t.args[0], du, through_calls=identity_through)
                     vec = rs and all(r[0] == 'arg' and r[-1] for r in rs) and 'BufferPosition' in (t.callee.resolved or '') + ' '.join(t.callee.targs)
@@ -1600,5 +1671,5 @@ def ser_validation_rules(prog, R):
                         continue
                     n += 1
                     R.add('SER-4', b, 'only-counted-entries-validated#%d' % n, bounded, site(b, t.line),
-                          'the validation walks over the offsets vector %s by the record count: entries behind the count are leftovers of earlier batches (kept for reuse, serialised as they are) and need not fit the buffer' % (
+                          'the offsets vector is walked / asked for its last entry %s by the record count: entries behind the count are leftovers of earlier batches (kept for reuse) and say nothing about the records of the set' % (
                               'bounded' if bounded else 'NOT bounded'))
